@@ -95,6 +95,15 @@ def translation(check, prog):
                 for a in list(c['args']) + [v for k, v in c['kwargs']]:
                     if a[0] != 'sym':
                         w.w(a)
+            # guards (including those of raising paths in inlined callees): a
+            # test on a shifted quantity makes the outcome position dependent
+            seen_c = set()
+            for conds in [o.cond for o in res.outcomes] + \
+                    [e['cond'] for e in it.effects] + [c['cond'] for c in it.calls]:
+                for ct, pol in conds:
+                    if ct[0] not in ('loop-iter', 'exc') and id(ct) not in seen_c:
+                        seen_c.add(id(ct))
+                        w.w(ct)
             conflicts = [(m, t) for k, m, t in w.problems if k == 'conflict']
             unknowns = [(m, t) for k, m, t in w.problems if k == 'unknown']
             seen = set()
